@@ -52,6 +52,15 @@ RULES = [
  ('OOS-id-format  the textual form of the device id (C20 asks for stability)', r'util/mac\.go#'),
  ('LENIENT-tlv8  tlv8 struct decoder: what happens when a tag is absent or an error path is taken (C17 asks for round trips and "a value or an error")',
   r'^tlv8/'),
+ ('EQ-generic  Format set by the generic NewBool / NewString / NewBytes helpers: every catalog constructor sets it again (NewInt / NewFloat never set one)',
+  r'characteristic/(bool|string|bytes)\.go#0:'),
+ ('OOS-uint64  lower clamp of the uint64 format: no constructor of the library uses it (0 is stored as 1: still inside the range C12 asks for)',
+  r'characteristic/characteristic\.go#77:'),
+ ('EQ-boundary  > versus >= where the two differ only for an empty remainder',
+  r'hap/chunked_writer\.go#5:|hap/connection\.go#87:'),
+ ('LIVELOCK  the mutant makes hc spin or stall for ever; the monitors record their violations at once and ./check turns them into the verdict when the watchdog ends the run (verified by hand for hap/connection.go#58; the mutation driver of the earlier passes only saw the timeout)',
+  r'hap/connection\.go#58:|hap/session\.go#(2|3|25):'),
+ ('EQ-handler  pair-start handler stored per session: set again on every request', r'hap/session\.go#15:'),
  ('EQ-storage  error-path cleanup of a failed write, read chunk size, listing details not observable through the API',
   r'util/file_storage\.go#|db/database\.go#'),
 ]
